@@ -31,7 +31,7 @@ def thresholds(tier):
 def knobs_for(rng):
   return {"depth": rng.choice([0, 1, 1, 2, 2]), "max_children": rng.choice([1, 2, 3]), "p_ff": rng.choice([0.1, 0.25, 0.4]),
           "p_split": rng.choice([0.2, 0.5]), "max_sigs": rng.choice([3, 4, 6]), "expr_depth": rng.choice([2, 3]),
-          "p_nested_field": rng.choice([0, 0.25]), "p_list_field": rng.choice([0, 0.25]), "p_for": rng.choice([0, 0.6]), "p_annot": rng.choice([0, 0.3]), "p_branchy": rng.choice([0, 0.15]), "p_const": rng.choice([0, 0.1]), "p_const_generic": 0.5, "p_omit_bounds_blk": rng.choice([0, 0.5]), "p_expr_bounds_blk": rng.choice([0, 0.4]), "p_attr_bounds": 0.4, "p_for_mixed": 0.5, "p_tmp_loopname": 0.8, "p_list": 0.3, "p_freevar": 0.2, "p_tmp": 0.25, "p_const_struct": rng.choice([0, 0.3]), "p_nested_slice": rng.choice([0, 0.3]), "p_vfunc": rng.choice([0, 0.5]), "p_tmp_chain": 0.3, "p_vsl": rng.choice([0, 0.25]), "p_lambda": rng.choice([0, 0.3]), "p_lambda_part": rng.choice([0, 0.4]), "p_func": rng.choice([0, 0.3]), "p_shadow": 0.3, "p_subclass": rng.choice([0, 0.5]), "p_callshapes": rng.choice([0, 0.4])}
+          "p_nested_field": rng.choice([0, 0.25]), "p_list_field": rng.choice([0, 0.25]), "p_for": rng.choice([0, 0.6]), "p_annot": rng.choice([0, 0.3]), "p_branchy": rng.choice([0, 0.15]), "p_const": rng.choice([0, 0.1]), "p_const_generic": 0.5, "p_omit_bounds_blk": rng.choice([0, 0.5]), "p_expr_bounds_blk": rng.choice([0, 0.4]), "p_attr_bounds": 0.4, "p_for_mixed": 0.5, "p_tmp_loopname": 0.8, "p_list": 0.3, "p_freevar": 0.2, "p_tmp": 0.25, "p_const_struct": rng.choice([0, 0.3]), "p_nested_slice": rng.choice([0, 0.3]), "p_vfunc": rng.choice([0, 0.5]), "p_tmp_chain": 0.3, "p_vsl": rng.choice([0, 0.25]), "p_lambda": rng.choice([0, 0.3]), "p_lambda_part": rng.choice([0, 0.4]), "p_func": rng.choice([0, 0.3]), "p_shadow": 0.3, "p_digit_names": rng.choice([0, 0.5]), "p_subclass": rng.choice([0, 0.5]), "p_callshapes": rng.choice([0, 0.4])}
 
 
 ALIAS_SRC = """from pymtl3 import *
